@@ -47,7 +47,7 @@ Forms == /\ ~done
 
 (* cfg-gated variants: a gated extra value, or two variants sharing a value under exclusive gates *)
 GatedVariants == /\ ~done
-         /\ \E exh \in Exhs : \E shape \in 1..12 :
+         /\ \E exh \in Exhs : \E shape \in 1..14 :
               LET base == Plain(2, exh, {0, 1, 2}, "asc").variants IN
               e' = [name |-> "E", n |-> 2, exh |-> exh, variants |->
                      CASE shape = 1 -> Append(base, V(3, DSeq(3, 2), "on", "lit"))
@@ -65,7 +65,10 @@ GatedVariants == /\ ~done
                        [] shape = 11 -> <<base[1], V(1, DSeq(1, 2), "on", "lit"), V(1, DSeq(2, 2), "off", "lit"),
                                           V(2, DSeq(2, 2), "on", "lit"), V(2, DSeq(1, 2), "off", "lit"), V(3, DSeq(3, 2), "none", "lit")>>
                        [] shape = 12 -> <<V(3, DSeq(3, 2), "on", "lit"), V(3, DSeq(0, 2), "off", "lit"), V(0, DSeq(0, 2), "on", "lit"),
-                                          V(0, DSeq(3, 2), "off", "lit"), base[2], base[3]>>]
+                                          V(0, DSeq(3, 2), "off", "lit"), base[2], base[3]>>
+                       (* variants named like prelude items the generated code mentions, or like the enum itself *)
+                       [] shape = 13 -> [k \in 1..3 |-> [base[k] EXCEPT !.name = <<"Ok", "Err", "E">>[k]]]
+                       [] shape = 14 -> [k \in 1..4 |-> [V(k - 1, DSeq(k - 1, 2), "none", "lit") EXCEPT !.name = <<"None", "Some", "Result", "Default">>[k]]]]
          /\ done' = TRUE
 
 (* the #[cfg] gate is not the variant's first attribute (a doc comment precedes it) *)
